@@ -408,7 +408,7 @@ Lemma step_inl : forall sc c start s e s' e',
   exists s1 ns tcp backoff T ob clock2,
     next_nameserver c s = NSOk s1 ns tcp backoff /\
     compute_timeout start (c_lifetime c) (c_timeout c) (e_clock e + backoff) = inl T /\
-    observe (sc (e_pos e)) T (e_clock e + backoff) (question_of c s1) = (ob, clock2) /\
+    observe (face (sc (e_pos e)) tcp) T (e_clock e + backoff) (question_of c s1) = (ob, clock2) /\
     e' = {| e_clock := clock2; e_pos := S (e_pos e); e_trace := e_trace e ++ [mk_event s1 ns tcp backoff T e ob clock2] |} /\
     (query_result c s1 clock2 (Z.of_nat (e_pos e)) ob = QCont s' \/
      exists s2, query_result c s1 clock2 (Z.of_nat (e_pos e)) ob = QNext s2 /\
@@ -418,7 +418,7 @@ Proof.
   destruct (next_nameserver c s) as [s1 ns tcp backoff|s1|k] eqn:EN; try discriminate.
   destruct (compute_timeout start (c_lifetime c) (c_timeout c) (e_clock e + backoff)) as [T|d] eqn:ET; try discriminate.
   fold (question_of c s1) in H.
-  destruct (observe (sc (e_pos e)) T (e_clock e + backoff) (question_of c s1)) as [ob clock2] eqn:EO.
+  destruct (observe (face (sc (e_pos e)) tcp) T (e_clock e + backoff) (question_of c s1)) as [ob clock2] eqn:EO.
   exists s1, ns, tcp, backoff, T, ob, clock2.
   destruct (query_result c s1 clock2 (Z.of_nat (e_pos e)) ob) as [s2|s2 a|s2|s2 a|s2|k] eqn:EQ; try discriminate.
   - inversion H; subst. repeat split; auto.
@@ -444,7 +444,7 @@ Lemma step_inr : forall sc c start s e f s' e',
   (exists s1 ns tcp backoff T ob clock2,
      next_nameserver c s = NSOk s1 ns tcp backoff /\
      compute_timeout start (c_lifetime c) (c_timeout c) (e_clock e + backoff) = inl T /\
-     observe (sc (e_pos e)) T (e_clock e + backoff) (question_of c s1) = (ob, clock2) /\
+     observe (face (sc (e_pos e)) tcp) T (e_clock e + backoff) (question_of c s1) = (ob, clock2) /\
      e' = {| e_clock := clock2; e_pos := S (e_pos e); e_trace := e_trace e ++ [mk_event s1 ns tcp backoff T e ob clock2] |} /\
      ( (exists a, query_result c s1 clock2 (Z.of_nat (e_pos e)) ob = QAnswer s' a /\ f = FAnswer a) \/
        (exists a, query_result c s1 clock2 (Z.of_nat (e_pos e)) ob = QNoAnswer s' a /\ f = FNoAnswer a) \/
@@ -459,7 +459,7 @@ Proof.
   destruct (next_nameserver c s) as [s1 ns tcp backoff|s1|k] eqn:EN.
   - destruct (compute_timeout start (c_lifetime c) (c_timeout c) (e_clock e + backoff)) as [T|d] eqn:ET.
     + right. right. right. fold (question_of c s1) in H.
-      destruct (observe (sc (e_pos e)) T (e_clock e + backoff) (question_of c s1)) as [ob clock2] eqn:EO.
+      destruct (observe (face (sc (e_pos e)) tcp) T (e_clock e + backoff) (question_of c s1)) as [ob clock2] eqn:EO.
       exists s1, ns, tcp, backoff, T, ob, clock2.
       destruct (query_result c s1 clock2 (Z.of_nat (e_pos e)) ob) as [s2|s2 a|s2|s2 a|s2|k] eqn:EQ; try discriminate.
       * inversion H; subst. repeat split; auto. left. eauto.
